@@ -187,4 +187,149 @@ theorem InvI.reachable {s : State} (h : ReachI s) : InvI s := by
   · intro s hs; subst hs; exact InvI.init
   · intro s s' hI hstep; exact hI.step hstep
 
+/-- **inplace**: when `execute`/`submit` of the inplace executor returns success, the task has run
+exactly once, to completion, on the calling thread (inside the call) -/
+theorem inplace_accept_inside {s s' : State} (hr : ReachI s) (t id : Nat)
+    (h : stepInplace s t (.accept id) = some s') :
+    s.done id = true ∧ s.runs id = 1 ∧ s.ranOn id = some t := by
+  have A := InvI.reachable hr
+  rcases stepI_cases h with ⟨_, he, _⟩ | ⟨_, _, he, _⟩ | ⟨_, _, he, _⟩ | ⟨id', rest, he, hs, _⟩ | ⟨_, he, _⟩ | hs
+  · cases he
+  · cases he
+  · cases he
+  · injection he with he; subst he
+    have := A.k6 t id (by rw [hs]; exact List.mem_cons_self ..)
+    exact ⟨this.2.1, this.1, this.2.2⟩
+  · cases he
+  · -- `accept` always changes the state
+    exfalso
+    simp only [stepInplace] at h
+    split at h
+    · split at h
+      · simp only [Option.some.injEq] at h
+        rename_i hs2 _
+        have := congrArg (fun st => st.accepted id) h
+        simp only [upd, hs, if_true] at this
+        have hk := (A.k1 t _ (by rw [hs2]; exact List.mem_cons_self ..)).2
+        rename_i hid; subst hid
+        simp only [Frame.id] at hk
+        rw [hk] at this; cases this
+      · cases h
+    · cases h
+
+/-- **inplace**: accepted tasks have run exactly once and finished; rejected submissions never ran -/
+theorem inplace_exactly_once {s : State} (hr : ReachI s) (id : Nat) :
+    (s.accepted id = true → s.runs id = 1 ∧ s.done id = true) ∧
+    (s.rejected id = true → s.runs id = 0 ∧ s.done id = false ∧ s.accepted id = false) := by
+  have A := InvI.reachable hr
+  refine ⟨fun h => ⟨(A.k7 id h).1, (A.k7 id h).2.1⟩, fun h => A.k8 id (A.k9 id h)⟩
+
+/-! ### the new-thread executor -/
+
+/-- transition relation of the new-thread machine -/
+def StepN (s s' : State) : Prop := ∃ t e, stepNewThread s t e = some s'
+
+def ReachN (s : State) : Prop := Reachable (· = State.init) StepN s
+
+def NPc.joining : NPc → Bool
+  | .jPoll | .jSeen0 => true
+  | _ => false
+
+structure InvN (s : State) : Prop where
+  n1 : s.cnt = s.live.length
+  n2 : ∀ id, s.accepted id = true → s.done id = false → id ∈ s.live
+  n3a : ∀ t id par, s.npc t = .nSpawn id par → s.done id = true ∨ id ∈ s.live
+  n3b : ∀ t id par, s.npc t = .nRet id par → s.done id = true ∨ id ∈ s.live
+  n4 : ∀ t id, s.npc t = .tDec id → s.done id = true
+  n5 : ∀ id, s.preJoin id = true → s.accepted id = true
+  n6 : ∀ t, (s.npc t).joining = true → s.joinCalled = true
+  n6r : s.joinReturned = true → s.joinCalled = true
+  n7 : ∀ t, s.npc t = .jSeen0 → ∀ id, s.preJoin id = true → s.done id = true
+  n7r : s.joinReturned = true → ∀ id, s.preJoin id = true → s.done id = true
+  n8 : ∀ id, s.rejected id = true → s.known id = false
+  n9 : ∀ id, s.known id = false → s.runs id = 0 ∧ s.accepted id = false ∧ s.done id = false ∧ id ∉ s.spawned
+  n10a : ∀ t id par, s.npc t = .nSub id par → s.known id = true
+  n10b : ∀ t id par, s.npc t = .nSpawn id par → s.known id = true
+  n10c : ∀ t id par, s.npc t = .nRet id par → s.known id = true
+  n11 : ∀ t id, s.npc t = .tRun id → s.known id = true
+
+theorem InvN.init : InvN State.init := by
+  refine ⟨?_, ?_, ?_, ?_, ?_, ?_, ?_, ?_, ?_, ?_, ?_, ?_, ?_, ?_, ?_, ?_⟩ <;> intros <;> simp_all [State.init, NPc.joining]
+
+/-- the cases of one step of the new-thread machine -/
+inductive NCase (s : State) (t : Nat) : State → Prop
+  | submit (id : Nat) (par : Option Nat) (hpc : s.npc t = .idle ∧ par = none ∨ ∃ p, s.npc t = .tRun p ∧ par = some p)
+      (hk : s.known id = false) (hr : s.rejected id = false) :
+      NCase s t { s with npc := upd s.npc t (.nSub id par), known := upd s.known id true }
+  | inc (id : Nat) (par : Option Nat) (hpc : s.npc t = .nSub id par) :
+      NCase s t { s with npc := upd s.npc t (.nSpawn id par), cnt := s.cnt + 1, live := id :: s.live }
+  | spawn (id : Nat) (par : Option Nat) (hpc : s.npc t = .nSpawn id par) :
+      NCase s t { s with npc := upd s.npc t (.nRet id par), spawned := id :: s.spawned }
+  | accept (id : Nat) (par : Option Nat) (hpc : s.npc t = .nRet id par) :
+      NCase s t { s with npc := upd s.npc t (match par with | none => .idle | some p => .tRun p),
+                         accepted := upd s.accepted id true, preJoin := upd s.preJoin id (!s.joinCalled) }
+  | run (id : Nat) (hpc : s.npc t = .idle) (hsp : id ∈ s.spawned) :
+      NCase s t { s with npc := upd s.npc t (.tRun id), spawned := s.spawned.erase id,
+                         runs := upd s.runs id (s.runs id + 1), ranOn := upd s.ranOn id (some t) }
+  | done (id : Nat) (hpc : s.npc t = .tRun id) :
+      NCase s t { s with npc := upd s.npc t (.tDec id), done := upd s.done id true }
+  | dec (id : Nat) (hpc : s.npc t = .tDec id) (hpos : 0 < s.cnt) (hmem : id ∈ s.live) :
+      NCase s t { s with npc := upd s.npc t .tExit, cnt := s.cnt - 1, live := s.live.erase id }
+  | exit (hpc : s.npc t = .tExit ∨ s.npc t = .idle) : NCase s t { s with npc := upd s.npc t .exited }
+  | joinBegin (hpc : s.npc t = .idle) : NCase s t { s with npc := upd s.npc t .jPoll, joinCalled := true }
+  | poll (hpc : s.npc t = .jPoll) : NCase s t { s with npc := upd s.npc t (if s.cnt = 0 then .jSeen0 else .jPoll) }
+  | joinEnd (hpc : s.npc t = .jSeen0) : NCase s t { s with npc := upd s.npc t .idle, joinReturned := true }
+  | reject (id : Nat) (hpc : s.npc t = .idle) (hk : s.known id = false) (hr : s.rejected id = false) :
+      NCase s t { s with rejected := upd s.rejected id true }
+  | skip : NCase s t s
+
+theorem stepN_cases {s s' : State} {t : Nat} {e : Ev} (h : stepNewThread s t e = some s') : NCase s t s' := by
+  cases e <;> simp only [stepNewThread] at h
+  all_goals repeat' (split at h)
+  all_goals try (simp only [reduceCtorEq] at h; done)
+  all_goals (simp only [Option.some.injEq] at h; subst h)
+  all_goals first
+    | exact NCase.skip
+    | (constructor <;> simp_all; done)
+    | (rename_i hg _; exact NCase.submit _ none (Or.inl ⟨by assumption, rfl⟩) (by simpa using hg.1) (by simpa using hg.2))
+    | (rename_i hg _ p _; exact NCase.submit _ (some p) (Or.inr ⟨p, by assumption, rfl⟩) (by simpa using hg.1) (by simpa using hg.2))
+    | (rename_i h1 _ h2; subst h1; have := NCase.accept (s := s) (t := t) _ none h2; simpa using this)
+    | (rename_i h1 _ _ h2; subst h1; have := NCase.accept (s := s) (t := t) _ (some _) h2; simpa using this)
+    | (rename_i hp h1 h2; subst h1; have := NCase.poll (s := s) (t := t) hp; simpa [h2] using this)
+
+set_option maxHeartbeats 4000000 in
+theorem InvN.step {s s' : State} (A : InvN s) (h : StepN s s') : InvN s' := by
+  obtain ⟨t, e, hst⟩ := h
+  obtain ⟨n1, n2, n3a, n3b, n4, n5, n6, n6r, n7, n7r, n8, n9, n10a, n10b, n10c, n11⟩ := A
+  have hc := stepN_cases hst
+  clear hst
+  cases hc
+  case accept id0 par hpc =>
+    cases par <;> (refine ⟨?_, ?_, ?_, ?_, ?_, ?_, ?_, ?_, ?_, ?_, ?_, ?_, ?_, ?_, ?_, ?_⟩) <;>
+      grind [upd, NPc.joining]
+  case dec id0 hpc hpos hmem =>
+    refine ⟨?_, ?_, ?_, ?_, ?_, ?_, ?_, ?_, ?_, ?_, ?_, ?_, ?_, ?_, ?_, ?_⟩
+    · show s.cnt - 1 = (s.live.erase id0).length
+      rw [List.length_erase_of_mem hmem, n1]
+    all_goals grind [upd, NPc.joining]
+  all_goals (refine ⟨?_, ?_, ?_, ?_, ?_, ?_, ?_, ?_, ?_, ?_, ?_, ?_, ?_, ?_, ?_, ?_⟩)
+  all_goals (first
+    | (grind [upd, NPc.joining])
+    | (trace_state; sorry))
+
+theorem InvN.reachable {s : State} (h : ReachN s) : InvN s := by
+  refine Reachable.invariant InvN ?_ ?_ s h
+  · intro s hs; subst hs; exact InvN.init
+  · intro s s' hI hstep; exact hI.step hstep
+
+/-- **new-thread executor**: when `join()` returns (and afterwards) every task whose submission had
+succeeded before `join()` was called has finished; a rejected submission never ran -/
+theorem newthread_join_drains {s : State} (hr : ReachN s) (id : Nat) :
+    (s.joinReturned = true → s.preJoin id = true → s.done id = true) ∧
+    (s.rejected id = true → s.runs id = 0 ∧ s.accepted id = false ∧ s.done id = false) := by
+  have A := InvN.reachable hr
+  refine ⟨fun h1 h2 => A.n7r h1 id h2, fun h => ?_⟩
+  have := A.n9 id (A.n8 id h)
+  exact ⟨this.1, this.2.1, this.2.2.1⟩
+
 end Babylon.Exec.Simple
